@@ -139,8 +139,8 @@ class SolveTContract(FunctionContract):
 
         def filter_ok():
             strict = z3.And(e['errors'] == S('raise'), e['cfe'])
-            is_error = g['wfilter'] == 'error'
-            return z3.If(strict, z3.BoolVal(is_error), z3.BoolVal(not is_error))
+            # every warning category: 'error' under errors='raise' with catch_first_error, 'always' otherwise (a filter restricted to one category is neither)
+            return z3.If(strict, z3.BoolVal(g['wfilter'] == 'error'), z3.BoolVal(g['wfilter'] == 'always'))
 
         def forwarded(kwargs, iteration_expected, who):
             ok = []
